@@ -491,10 +491,14 @@ def write_dir(case, d):
         tl.append({"tid": t["tid"], "pid": t["tid"], "ppid": None,
                    "recs": [{"t": r[0], "type": r[1], "depth": r[2],
                              "addr": r[3] if r[1] == LOSTREC else
-                             (BASE2 if s2 and s2["task"] == ti and ri >= s2["at"] else BASE) + syms[r[3]][0]}
+                             (BASE2 if s2 and s2["task"] == ti and ri >= s2["at"] else BASE) + syms[r[3]][0],
+                             # optional 5th component: the argument / return-value payload (hex, on-disk form; used by C18)
+                             "payload": bytes.fromhex(r[4]) if len(r) > 4 else b""}
                             for ri, r in enumerate(t["recs"])]})
     desc = {"syms": syms, "base": BASE, "tasks": tl, "max_stack": case["max_stack"]}
-    datadir.write(desc, d)
+    if case.get("argspec"):
+        desc["args"] = True
+    datadir.write(desc, d, argspec=case.get("argspec"))
     # task.txt in creation order (a parent before its children); threads belong to the first root
     tasks = case["tasks"]
     done, lines = set(), []
